@@ -107,7 +107,7 @@ func (s *SecretScanner) scanTable(dbName string, table *TableDump) []SecretFindi
 	for rowIdx, row := range table.Rows {
 		for _, colName := range rowKeys(table.Columns, row) {
 			value := row[colName]
-			strVal := fmt.Sprintf("%v", value)
+			strVal := cellText(value)
 			if len(strVal) < 8 {
 				continue // Too short to be a secret
 			}
@@ -131,6 +131,34 @@ func (s *SecretScanner) scanTable(dbName string, table *TableDump) []SecretFindi
 	}
 
 	return findings
+}
+
+// cellText is the text of a cell the detectors look at: fmt's %v rendering of the
+// value, with []byte values (at any depth) taken as the text they hold - as
+// matchValue does for the search - rather than as a list of decimal numbers
+// ("[115 107 95 ...]"), in which no detector can find anything.
+func cellText(value interface{}) string {
+	return fmt.Sprintf("%v", bytesAsText(value))
+}
+
+func bytesAsText(value interface{}) interface{} {
+	switch v := value.(type) {
+	case []byte:
+		return string(v)
+	case []interface{}:
+		out := make([]interface{}, len(v))
+		for i, elem := range v {
+			out[i] = bytesAsText(elem)
+		}
+		return out
+	case map[string]interface{}:
+		out := make(map[string]interface{}, len(v))
+		for key, val := range v {
+			out[key] = bytesAsText(val)
+		}
+		return out
+	}
+	return value
 }
 
 // ScanDataDir scans a PostgreSQL data directory for secrets
